@@ -314,6 +314,7 @@ pub fn c09_pins() -> Vec<(&'static str, Case)> {
         copy_from: None,
     };
     vec![
+        ("sibling_call_literals", mk("char *p;\nunsigned char r;\nchar g(char *s) { p = s; return 1; }\nchar h(char *a, char *b) { p = a; p = b; return 1; }\nvoid main() { r = g(\"aa\") + g(\"bb\"); h(\"cc\", (\"dd\")); }\n", vec![("cctmp0", vec![97, 97, 0]), ("cctmp1", vec![98, 98, 0]), ("cctmp2", vec![99, 99, 0]), ("cctmp3", vec![100, 100, 0])], vec![])),
         ("formfeed_escape", mk("const char s0[] = \"a\\fb\";\nconst char ck = '\\f';\nvoid main() {}\n", vec![("s0", vec![97, 12, 98, 0])], vec![("ck", 12)])),
     ]
 }
